@@ -1,5 +1,6 @@
 import QibProofs.Lemmas.GateNetSem
 import QibProofs.Lemmas.GateNetConsWF
+import QibProofs.Lemmas.GateNetGQ
 import Mathlib.Analysis.Complex.Exponential
 /-!
 C06 — A gate's tensor network is its matrix, one axis pair per wire. Property theorems only
@@ -128,11 +129,6 @@ theorem C06_phase_complex (n : Nat) (hn : n ≠ 0) (φ : ℝ) :
   field_simp
 
 /-! ### multiplexed gate: every number of controls, every target width -/
-
-theorem matList_getElem? : ∀ (ts : List (G α)) (k : Nat), (matList ts)[k]? = (ts[k]?).map G.mat
-  | [], k => by simp [matList]
-  | t :: ts, 0 => by simp [matList]
-  | t :: ts, k + 1 => by simp [matList, matList_getElem? ts k]
 
 theorem C06_multiplexed_denotes (nc : Nat) (ts : List (G α)) : Denotes (G.multiplexed nc ts) := by
   intro tn h o i ho hi bo bi
@@ -270,18 +266,6 @@ theorem C06_gateNet_consistent (g : G α) (tn : TN α) (h : gateNet g = .ok tn) 
       · cases h
       · simp only [Except.ok.injEq] at h; subst h; exact mplx_wf nc _
 
-theorem crossTensors_dataref (off : Int) (nc : Nat) (i : Nat) (cs : List Bool) (e : Int × STensor)
-    (he : e ∈ crossTensors off nc i cs) :
-    e.2.tid ≠ -1 ∧ e.2.shape = [2, 2, 2, 2] ∧ ∃ c ∈ cs, e.2.dataref = some (if c then 3 else 2) := by
-  induction cs generalizing i with
-  | nil => simp [crossTensors] at he
-  | cons c cs ih =>
-    simp only [crossTensors, List.mem_cons] at he
-    rcases he with rfl | he
-    · exact ⟨by simp only [Int.ofNat_eq_natCast]; omega, rfl, c, List.mem_cons_self, rfl⟩
-    · obtain ⟨h1, h2, c', hc', h3⟩ := ih (i + 1) he
-      exact ⟨h1, h2, c', List.mem_cons_of_mem _ hc', h3⟩
-
 /-- … and `TensorNetwork.is_consistent` (with the data dictionary): every real tensor's data reference is present
 and the stored array has the tensor's shape -/
 theorem C06_gateNet_consistent_data (g : G α) (tn : TN α) (h : gateNet g = .ok tn) : isConsistentData tn = .ok true := by
@@ -357,10 +341,6 @@ theorem C06_gateNet_consistent_data (g : G α) (tn : TN α) (h : gateNet g = .ok
         rcases he with rfl | rfl <;> simp [List.lookup, DT.ofFn]
 
 /-! ### two open axes per wire -/
-
-theorem numOpen_of_virt (net : Net) (v : STensor) (h : dget net.tensors (-1) = some v) :
-    numOpenAxes net = .ok v.shape.length ∧ netShape net = .ok v.shape := by
-  simp [numOpenAxes, netShape, virt, h]
 
 /-- every network except the two-qubit wraps exposes `2·num_wires` open axes of dimension 2 -/
 theorem C06_twoAxesPerWire_partial (g : G α) (hleaf : ∀ w m, g = G.leaf w m → w = 1) : TwoAxesPerWire g := by
@@ -445,7 +425,7 @@ theorem C06_known_twoQubitWrap_shape (m : Nat → Nat → α) :
       (List.Forall₂.cons (by simpa using hr) (List.Forall₂.cons (by simpa using hc) List.Forall₂.nil))]
     rfl
 
-/-! ### all gates together -/
+/-! ### denotation of all gates -/
 
 /-- **every gate that offers a network, except the two-qubit wraps and the preparation gate, contracts to its
 matrix** (phase gates under `unⁿ = u`, which holds for the values the code uses: `C06_phase_complex`) -/
@@ -459,6 +439,47 @@ theorem C06_gateNet_denotes_partial (g : G α) (hleaf : ∀ w m, g = G.leaf w m 
   | block w m => intro tn h; simp [gateNet] at h
   | controlled cs t => exact C06_controlled_denotes cs t
   | multiplexed nc ts => exact C06_multiplexed_denotes nc ts
+
+/-! ### all gates together -/
+
+/-- **the property, for every gate except the known two-qubit wraps.** Whenever `as_tensornet` returns a network `tn`
+for a gate `g` that is not one of the four two-qubit elementary classes:
+(1) `tn` is internally consistent (also as a `TensorNetwork`, with its data);
+(2) it exposes exactly `2·num_wires` open axes, all of dimension 2;
+(3) unless `g` is a preparation gate, contracting it at outputs `o`, inputs `i` (particle order) gives the matrix entry
+    `as_matrix()[bitsVal o, bitsVal i]` (phase gates under `unⁿ = u`);
+(4) if `g` is a preparation gate, the network is the rank-one map `|x⟩⟨0…0|` resp. its transpose. -/
+theorem C06_gate_network_partial (g : G α) (hleaf : ∀ w m, g = G.leaf w m → w = 1)
+    (hphase : ∀ n u un, g = G.phase n u un → un ^ n = u) (tn : TN α) (h : gateNet g = .ok tn) :
+    isConsistent tn.net = .ok true ∧ isConsistentData tn = .ok true ∧
+    numOpenAxes tn.net = .ok (2 * g.wires) ∧ netShape tn.net = .ok (rep2 (2 * g.wires)) ∧
+    ∀ o i : List Nat, o.length = g.wires → i.length = g.wires → Bits o → Bits i →
+      full tn.net tn.D (o ++ i) =
+        match g with
+        | .prepare n x _ tr =>
+          if tr then (if o = List.replicate n 0 then x (bitsVal i) else 0)
+          else (if i = List.replicate n 0 then x (bitsVal o) else 0)
+        | _ => g.mat (bitsVal o) (bitsVal i) := by
+  refine ⟨C06_gateNet_consistent g tn h, C06_gateNet_consistent_data g tn h,
+    (C06_twoAxesPerWire_partial g hleaf tn h).1, (C06_twoAxesPerWire_partial g hleaf tn h).2, ?_⟩
+  intro o i ho hi bo bi
+  cases g with
+  | prepare n x m tr => exact C06_prepare_rankOne n x m tr tn h o i ho hi bo bi
+  | leaf w m => exact C06_gateNet_denotes_partial _ hleaf (by intro _ _ _ _ e; cases e) hphase tn h o i ho hi bo bi
+  | dense w m => exact C06_gateNet_denotes_partial _ hleaf (by intro _ _ _ _ e; cases e) hphase tn h o i ho hi bo bi
+  | phase n u un => exact C06_gateNet_denotes_partial _ hleaf (by intro _ _ _ _ e; cases e) hphase tn h o i ho hi bo bi
+  | block w m => exact C06_gateNet_denotes_partial _ hleaf (by intro _ _ _ _ e; cases e) hphase tn h o i ho hi bo bi
+  | controlled cs t => exact C06_gateNet_denotes_partial _ hleaf (by intro _ _ _ _ e; cases e) hphase tn h o i ho hi bo bi
+  | multiplexed nc ts => exact C06_gateNet_denotes_partial _ hleaf (by intro _ _ _ _ e; cases e) hphase tn h o i ho hi bo bi
+
+/-- the theorems are about what the driver executes: over the driver's Gaussian rationals the semiring operations used
+in the statements are the driver's own `0`, `1`, `+`, `*` (`QibModel/GQ.lean`) -/
+theorem C06_driver_scalars (g : G Qib.GQ) :
+    @gateNet Qib.GQ Qib.GQ.instZero Qib.GQ.instOne g = gateNet g ∧
+    @G.mat Qib.GQ Qib.GQ.instZero Qib.GQ.instOne g = g.mat ∧
+    (∀ (net : Net) (D : Option Int → List Nat → Qib.GQ) (idx : List Nat),
+      @full Qib.GQ Qib.GQ.instZero Qib.GQ.instOne Qib.GQ.instAdd Qib.GQ.instMul net D idx = full net D idx) :=
+  ⟨rfl, rfl, fun _ _ _ => rfl⟩
 
 /-! ### non-vacuity -/
 
